@@ -524,6 +524,8 @@ def py_value(fn, args):
         return bool(r)
     if isinstance(r, (int, Fraction)):
         return rs(r)
+    if isinstance(r, np.integer):
+        return rs(int(r))
     if isinstance(r, (float, np.floating)):
         return rs(Fraction(float(r))) if math.isfinite(r) else "undef"
     return "nonnum"
